@@ -29,7 +29,10 @@ SAFE_SHARED = {"group", "ungroup", "sort", "reverse", "permute_setter", "permute
                "delitem", "remove", "delete", "insert", "append", "extend", "tcam", "shading",
                "shadow_of", "set_name", "set_io", "set_indent", "items_self"}
 # operations after which "sort() restores the numbered order" still has to hold
-KEEPS_NUMBERING = {"resequence", "sort", "reverse", "permute_setter", "permute_popins", "tcam",
+# (a permutation assigned through the items setter regroups under group_by and may merge a
+# heading-less block into its new predecessor: the reference model follows that, this text-level
+# oracle does not, so it stands down)
+KEEPS_NUMBERING = {"resequence", "sort", "reverse", "permute_popins", "tcam",
                    "shading", "shadow_of", "set_name", "set_io", "set_indent", "set_note"}
 
 OWNER_OF_OP = {
@@ -164,6 +167,7 @@ class AclMachine(Machine):
             two_clients=w.random() < 0.2,
             share_items=self.prop in ("C15", "C17") and w.random() < 0.25,
             log_level=w.choice(["DEBUG", "WARNING"]),
+            boundary_ports=w.random() < (0.3 if self.prop == "C04" else 0.12),
             from_config=w.random() < 0.2,
         )
         bias = BIAS.get(self.prop)
@@ -815,7 +819,18 @@ class AclMachine(Machine):
                 slot["numbered"] = acl.line
             else:
                 slot.pop("numbered", None)
-        elif k == "sort" and slot.get("numbered") and not op.get("reverse") \
+        if k == "sort" and not op.get("reverse") and op.get("key") is None:
+            # whatever order sort() chooses among ties, the result is sorted by the library's own
+            # ordering relation: no item compares less than the item in front of it
+            its = list(acl.items)
+            for a_, b_ in zip(its, its[1:]):
+                if b_ < a_:
+                    self._count_owned("C15")
+                    self._fail("C15", "C15.sorted",
+                               f"after sort() an item compares less than its predecessor:\n"
+                               f"{a_.line}\n{b_.line}", opkind=k)
+            self.probes["sorted_pairs_checked"] += max(len(its) - 1, 0)
+        if k == "sort" and slot.get("numbered") and not op.get("reverse") \
                 and op.get("key") is None:
             # also after a *refused* renumbering in between: whatever a refused call leaves
             # behind, a text that shows ascending numbers is what sort() has to restore
@@ -1819,6 +1834,16 @@ class AclMachine(Machine):
         elif kind == "resequence" and self.prop in ("C10", "C17") and s.random() < 0.3:
             self._plan = [(t, "set_item_seq", {}), (t, "resequence",
                                                     {k_: op[k_] for k_ in op if k_ != "memo"})]
+        elif kind == "resequence" and self.prop in ("C10", "C17") and s.random() < 0.3:
+            # the same renumbering once more on the reversed list: entries that still carry the
+            # numbers of the first pass must not be mistaken for the ones being numbered
+            self._plan = [(t, "reverse", {}), (t, "resequence",
+                                               {k_: op[k_] for k_ in op if k_ != "memo"})]
+        if self.prop in ("C15", "C17") and not getattr(self, "_plan", None) and kind in (
+                "insert", "append", "extend", "set_ports", "ungroup_ports", "reverse",
+                "permute_popins", "ungroup") and s.random() < 0.3:
+            # entries that tie on their number are ordered by the entry ordering relation
+            self._plan = [(t, "sort", {"reverse": False, "key": None})]
         if kind in ("shading", "shadow_of") and s.random() < 0.6 and any(
                 r.kind == "ace" and (r.src.group or r.dst.group) for r in self.slots[t]["m"].flat()):
             self._plan = [(t, "set_members", {}), (t, "shadow_triple", {"skip": op["skip"]})]
